@@ -83,7 +83,9 @@ def _maskify(self, inverse=False):
         )
 
     return sc.Stairs._new(
-        initial_value=np.nan if op(self.initial_value, 0) else 0,
+        initial_value=np.nan
+        if op(self.initial_value, 0) or np.isnan(self.initial_value)
+        else 0,
         data=data,
         closed=self.closed,
     )
